@@ -9,7 +9,7 @@ from props import _worldfam as F
 
 PID = 'C11'
 GENERATORS = ['consts']
-LEAN_TARGETS = ['EosProofs.Props.C11', 'EosProofs.Props.C11World', 'EosProofs.Props.C11Keyed', 'EosProofs.Props.C11Proj']
+LEAN_TARGETS = ['EosProofs.Props.C11', 'EosProofs.Props.C11World', 'EosProofs.Props.C11Keyed', 'EosProofs.Props.C11Proj', 'EosProofs.Props.C11Park']
 DRIVERS = ['drv_world', 'drv_keyed']
 TRUSTED = F.WORLD_TRUSTED
 RULE = ('after each generated history (all parameter sets incl. fleets and source switches) everything is removed in a '
@@ -26,7 +26,7 @@ ASSUMPTIONS = ['tear-down stays outside the class of known finding K1 (an item r
 CLAUSES = {
     'nothing removed influences what remains': 'the Lean spec is a function of the current configuration only (removed_item_no_influence, evalAll_no_items); impl tied to it per step (L1/L2)',
     'removed items and fits can be reused with from-scratch results': 'correspondence: re-used items vs Lean spec; machine level: C01 incremental_eq_scratch',
-    'no service, register, subscription, override or cache retains any entry': 'register level: KeyedStorage (the dict-of-sets all registers are made of) keeps exactly the entries added and not yet removed and no key without a member, after every call history (C11Keyed.inv_run, mem_bucket_*, noEmpty_run, run_no_residue, mem_keys_iff_bucket, rmSet_key_clean), and the two maps of the projection register stay converse relations (C11Proj.conv_run, no_one_sided_entry); both tied to the real classes by per-call differentials; message-level model: after the canonical tear-down of every item the dynamic state is empty on the configuration, hence every declarative register content (specs, affectees, direct sets, deps) and every cache entry is empty, and the tear-down is a legal run when projectors let go first (C11World.teardown_all_registers_empty, registers_empty, teardown_all_legal, history_then_teardown); the concrete buckets of affection.py / projection.py, restriction / stat registers and subscriptions: impl-level emptiness walk (enumeration)',
+    'no service, register, subscription, override or cache retains any entry': 'register level: KeyedStorage (the dict-of-sets all registers are made of) keeps exactly the entries added and not yet removed and no key without a member, after every call history (C11Keyed.inv_run, mem_bucket_*, noEmpty_run, run_no_residue, mem_keys_iff_bucket, rmSet_key_clean), and the two maps of the projection register stay converse relations (C11Proj.conv_run, no_one_sided_entry), and direct ship-domain specs are parked under the fit / held under the ship and leave both stores empty when none is registered (C11Park.wf_run, park_no_residue, held_*); all tied to the real classes by per-call differentials; message-level model: after the canonical tear-down of every item the dynamic state is empty on the configuration, hence every declarative register content (specs, affectees, direct sets, deps) and every cache entry is empty, and the tear-down is a legal run when projectors let go first (C11World.teardown_all_registers_empty, registers_empty, teardown_all_legal, history_then_teardown); the concrete buckets of affection.py / projection.py, restriction / stat registers and subscriptions: impl-level emptiness walk (enumeration)',
 }
 LEVEL_TEXT = ('Lean: values are functions of the current configuration (an item outside it cannot influence anything; '
               'an empty configuration has an empty value table). Residue freedom itself is checked on the real code by '
@@ -442,10 +442,99 @@ def _projpair(ctx, rep, n, label='projpair'):
             return
 
 
+def _parking(ctx, rep, n, label='parking'):
+    """Real fits against `AffReg` (Keyed.lean; theorems `C11Park.*`): modules with a direct ship-domain modifier are
+    added / removed while the ship is set, replaced and cleared; the two private stores of the real affection
+    register (`__affectors_item_awaiting`, `__affectors_item_active`) are dumped after every operation."""
+    C.load_repo()
+    from eos import Fit, ModuleHigh, Ship, SolarSystem, State
+    from eos.const.eos import ModAffecteeFilter, ModDomain, ModOperator
+    from eos.const.eve import EffectCategoryId
+    from eos.eve_obj.modifier import DogmaModifier
+    from harness import mem
+    rnd = ctx.sub_rnd(label)
+    ch = mem.MemCache()
+    a = ch.mkattr()
+    mod = DogmaModifier(affectee_filter=ModAffecteeFilter.item, affectee_domain=ModDomain.ship,
+                        affectee_attr_id=a.id, operator=ModOperator.post_percent, affector_attr_id=a.id)
+    e = ch.mkeffect(category_id=EffectCategoryId.passive, modifiers=(mod,))
+    modt = ch.mktype(attrs={a.id: 10}, effects=[e])
+    shipt = ch.mktype(attrs={a.id: 100})
+    src = mem.source(ch)
+    lines, want = [], []
+    for h in range(n):
+        ss = SolarSystem(source=src)
+        fit = Fit(solar_system=ss)
+        aff = ss._calculator._CalculationService__affections
+        aw, ac = aff._AffectionRegister__affectors_item_awaiting, aff._AffectionRegister__affectors_item_active
+        ids = {fit: 0}
+        mods, nship = {}, [0]
+
+        def dump(st):
+            if not st:
+                return 'empty'
+            return ';'.join('%d:%s' % (k, ','.join(map(str, v))) for k, v in
+                            sorted((ids[k], sorted(ids[sp.item] for sp in st[k])) for k in st))
+        lines.append('anew')
+        want.append('empty | empty')
+        ops = []
+        for _ in range(rnd.randint(4, 30)):
+            r = rnd.random()
+            new = []
+            if r < 0.3:
+                i = rnd.randrange(1, 7)
+                if i in mods:
+                    continue
+                m = mods[i] = ModuleHigh(modt.id, state=State.offline)
+                ids[m] = i
+                fit.modules.high.append(m)
+                new = ['sa %d' % i]
+            elif r < 0.55:
+                if not mods:
+                    continue
+                i = rnd.choice(sorted(mods))
+                fit.modules.high.remove(mods.pop(i))
+                new = ['su %d' % i]
+            elif r < 0.85:
+                nship[0] += 1
+                sh = Ship(shipt.id)
+                ids[sh] = 10 + nship[0]
+                new = (['ush'] if fit.ship is not None else []) + ['rsh %d' % ids[sh]]
+                fit.ship = sh
+            else:
+                if fit.ship is None:
+                    continue
+                fit.ship = None
+                new = ['ush']
+            for ln in new[:-1]:
+                lines.append(ln)
+                want.append(None)              # intermediate state of a replacement: not observable on impl
+            lines.append(new[-1])
+            ops += new
+            want.append(dump(aw) + ' | ' + dump(ac))
+            held = {ids[sp.item] for st in (aw, ac) for k in st for sp in st[k]}
+            if held != set(mods):
+                rep.violate('ship-domain specs held by the affection register %s differ from the fitted modules %s'
+                            % (sorted(held), sorted(mods)), {'keyed_ops': list(ops)})
+                return
+        rep.case(sig=('parking', tuple(ops)) if len(ops) >= 6 else None, sample={'keyed_ops': ops[:12]}, kind='parking')
+    got = C.run_driver('drv_keyed', '\n'.join(lines) + '\n')
+    if len(got) != len(want):
+        raise C.InfraError('drv_keyed: %d lines for %d ops' % (len(got), len(want)))
+    pos = 0
+    for i, (g, w) in enumerate(zip(got, want)):
+        if lines[i] == 'anew':
+            pos = i
+        if w is not None and g != w:
+            rep.disagree('L2:spec-parking', g, w, {'keyed_ops': lines[pos + 1:i + 1]})
+            return
+
+
 def correspondence(ctx):
     rep = ctx.report
     rep.rules.append(RULE)
     _keyed(ctx, rep, ctx.n(400, 8000))
+    _parking(ctx, rep, ctx.n(200, 3000))
     _projpair(ctx, rep, ctx.n(300, 6000))
     _teardown(ctx, rep, ['basic', 'fleet', 'fleetheavy', 'projheavy', 'long', 'three-fits-decimal', 'pymods'], ctx.n(35, 700), 'teardown')
     _teardown_restr(ctx, rep, ctx.n(150, 3000))
@@ -537,6 +626,58 @@ def _replay_keyed(ops):
     return 1 if bad else 0
 
 
+def _replay_parking(ops):
+    C.load_repo()
+    from eos import Fit, ModuleHigh, Ship, SolarSystem, State
+    from eos.const.eos import ModAffecteeFilter, ModDomain, ModOperator
+    from eos.const.eve import EffectCategoryId
+    from eos.eve_obj.modifier import DogmaModifier
+    from harness import mem
+    ch = mem.MemCache()
+    a = ch.mkattr()
+    mod = DogmaModifier(affectee_filter=ModAffecteeFilter.item, affectee_domain=ModDomain.ship,
+                        affectee_attr_id=a.id, operator=ModOperator.post_percent, affector_attr_id=a.id)
+    e = ch.mkeffect(category_id=EffectCategoryId.passive, modifiers=(mod,))
+    modt = ch.mktype(attrs={a.id: 10}, effects=[e])
+    shipt = ch.mktype(attrs={a.id: 100})
+    ss = SolarSystem(source=mem.source(ch))
+    fit = Fit(solar_system=ss)
+    aff = ss._calculator._CalculationService__affections
+    aw, ac = aff._AffectionRegister__affectors_item_awaiting, aff._AffectionRegister__affectors_item_active
+    ids, mods = {fit: 0}, {}
+
+    def dump(st):
+        if not st:
+            return 'empty'
+        return ';'.join('%d:%s' % (k, ','.join(map(str, v))) for k, v in
+                        sorted((ids[k], sorted(ids[sp.item] for sp in st[k])) for k in st))
+    got = C.run_driver('drv_keyed', '\n'.join(ops) + '\n')
+    bad = 0
+    for n, op in enumerate(ops):
+        t = op.split()
+        if t[0] == 'sa':
+            m = mods[int(t[1])] = ModuleHigh(modt.id, state=State.offline)
+            ids[m] = int(t[1])
+            fit.modules.high.append(m)
+        elif t[0] == 'su':
+            fit.modules.high.remove(mods.pop(int(t[1])))
+        elif t[0] == 'rsh':
+            sh = Ship(shipt.id)
+            ids[sh] = int(t[1])
+            fit.ship = sh
+        elif t[0] == 'ush':
+            if n + 1 < len(ops) and ops[n + 1].startswith('rsh'):
+                print('%-8s model %-30s (replacement, not observable)' % (op, got[n]))
+                continue
+            fit.ship = None
+        w = dump(aw) + ' | ' + dump(ac)
+        print('%-8s model %-30s impl %s' % (op, got[n], w))
+        bad |= got[n] != w
+    held = {ids[sp.item] for st in (aw, ac) for k in st for sp in st[k]}
+    bad |= held != set(mods)
+    return 1 if bad else 0
+
+
 def replay(path):
     import json
     p = C.VERIF / path if not str(path).startswith('/') else path
@@ -544,5 +685,7 @@ def replay(path):
     v = data.get('violation') or (data.get('broken') or [{}])[0].get('detail')
     case = (v or {}).get('case') if isinstance(v, dict) else None
     if isinstance(case, dict) and 'keyed_ops' in case:
+        if case['keyed_ops'] and case['keyed_ops'][0].split()[0] in ('sa', 'su', 'rsh', 'ush'):
+            return _replay_parking(case['keyed_ops'])
         return _replay_keyed(case['keyed_ops'])
     return F.generic_replay(PID, path)
